@@ -158,6 +158,8 @@ func (d fieldDiff) String() string {
 type compareOpts struct {
 	skipAccum bool // leave accumulated destinations to C18
 	onlyComp  bool
+	arrayPad  bool // arrays are compared modulo trailing invalid padding
+	localWall bool // local timestamps (also unset ones) are compared by wall-clock reading
 }
 
 // canonEqual compares an expected canonical value with an observed one;
@@ -292,10 +294,16 @@ func compareFile(f *fit.File, ft byte, msgs []ModelMsg, co compareOpts, st *Stat
 				w, present := em.fields[pf.SIndex]
 				if !present {
 					w = invalidCanon(pf)
+					if co.localWall && pf.Kind == kindLocal {
+						w = "w" + itoa(fitEpochUnix)
+					}
 				} else if st != nil {
 					st.Field(m.Global, pf.Num)
 				}
 				g := canonValue(gv.Field(pf.SIndex))
+				if co.arrayPad && pf.Array && !baseOf(pf.Base).String {
+					w, g = stripTrailingInvalid(pf, w), stripTrailingInvalid(pf, g)
+				}
 				if !canonEqual(w, g) {
 					diffs = append(diffs, fieldDiff{Slot: key, Index: i, Global: m.Global, Field: pf.Name, SIndex: pf.SIndex, Want: w, Got: g, Shape: fieldShape(m, em, pf)})
 					if len(diffs) > 50 {
